@@ -22,7 +22,9 @@ func zzC19_bls(op int) {
 	h := testHasher("c19-tag")
 	hr := testHasher("c19-tag")
 	popr := internalExpandMsgXOFKMAC128(blsPOPCipherSuite)
-	msg := nondetBytes(2)
+	frame := nondetBytes(10) // the message is a sub-slice with spare capacity: the bytes behind it are the caller's too
+	frame0 := append([]byte{}, frame...)
+	msg := frame[:2]
 	msg2 := nondetBytes(2)
 	msg0 := append([]byte{}, msg...)
 	// the signatures and the PoP are produced with the twin key objects and a twin hasher, so that the objects
@@ -128,6 +130,7 @@ func zzC19_bls(op int) {
 	verifAssert(verifSameState(h, hr), "shared KMAC hasher unchanged")
 	verifAssert(verifSameState(popKMAC, popr), "package-level PoP hasher unchanged")
 	assertEqBytes(msg, msg0, "message unmodified")
+	assertEqBytes(frame, frame0, "bytes behind the message (spare capacity of the slice) unmodified")
 	assertEqBytes(sig1, sig10, "signature unmodified")
 	assertEqBytes(agg, agg0, "aggregated signature unmodified")
 	verifAssert(bAnd(pks[0] == pk1, pks[1] == pk2), "key list unmodified")
